@@ -153,7 +153,52 @@ def sampling_workload(rng):
             "data": data, "kwargs": {"return_only_persistent": False}, "env": {}, "output_folder": False, "meta": {"sampling": n}}
 
 
+def timeseries_workload(rng):
+    """Panel data: 2-4 series of different frequencies that start on the same date / period, and the
+    time-series operators (results per series depend on the order of the *periods*, never on row order;
+    anything inferred from 'the first series' or 'the first row' depends on the physical order)."""
+    use_date = rng.random() < 0.55
+    if use_date:
+        pools = {"M": ["2020-01-31", "2020-02-29", "2020-03-31", "2020-04-30", "2020-05-31", "2020-06-30"],
+                 "Q": ["2020-01-31", "2020-04-30", "2020-07-31", "2020-10-31", "2021-01-31"],
+                 "A": ["2020-01-31", "2021-01-31", "2022-01-31"],
+                 "S": ["2020-01-31", "2020-07-31", "2021-01-31"]}
+        ttype = "Date"
+    else:
+        pools = {"M": ["2020M01", "2020M02", "2020M03", "2020M04", "2020M05"], "Q": ["2020Q1", "2020Q2", "2020Q3", "2020Q4", "2021Q1"],
+                 "A": ["2020", "2021", "2022"], "S": ["2020S1", "2020S2", "2021S1"]}
+        ttype = "Time_Period"
+    freqs = rng.sample(["M", "Q", "A", "S"], rng.choice([2, 2, 3])) if rng.random() < 0.8 else [rng.choice(["M", "Q"])] * 2
+    two_ids = rng.random() < 0.4
+    comps = [{"name": "Id_1", "type": "String", "role": "Identifier", "nullable": False}]
+    if two_ids:
+        comps.append({"name": "Id_2", "type": "Integer", "role": "Identifier", "nullable": False})
+    comps += [{"name": "Id_t", "type": ttype, "role": "Identifier", "nullable": False},
+              {"name": "Me_1", "type": "Number", "role": "Measure", "nullable": True}]
+    cols = [c["name"] for c in comps]
+    rows = []
+    for si, f in enumerate(freqs):
+        n = rng.randrange(2, len(pools[f]) + 1)
+        keep = sorted(rng.sample(range(1, len(pools[f])), n - 1)) if rng.random() < 0.3 else list(range(1, n))   # gaps in some series
+        for j in [0] + keep:
+            r = ["S%d" % si] + ([1 + si % 2] if two_ids else []) + [pools[f][j], None if rng.random() < 0.1 else float(rng.choice([1, 2, 3, 5, 10, 20]))]
+            rows.append(r)
+    kind = rng.choice(["df", "df", "csv_text", "parquet_df"])
+    data = {"DS_1": {"kind": "csv_text", "text": gen.csv_text(cols, rows)} if kind == "csv_text" else {"kind": kind, "columns": cols, "rows": rows}}
+    stmts = rng.sample(["R_sh <- timeshift(DS_1, 1);", "R_sb <- timeshift(DS_1, -1);", "R_fa <- fill_time_series(DS_1, all);", "R_fs <- fill_time_series(DS_1, single);",
+                        "R_fl <- flow_to_stock(DS_1);", "R_st <- stock_to_flow(DS_1);", "R_c <- DS_1[calc Me_2 := Me_1 * 2];",
+                        "R_g <- sum(DS_1 group by Id_1);", "R_l <- lag(DS_1, 1 over (partition by Id_1%s order by Id_t));" % (", Id_2" if two_ids else ""),
+                        "R_fsh <- timeshift(fill_time_series(DS_1, single), 1);", "R_ffl <- flow_to_stock(fill_time_series(DS_1, all));"],
+                       rng.choice([2, 3, 4]))
+    return {"api": "run", "script": "\n".join(stmts) + "\n", "structures": {"datasets": [{"name": "DS_1", "DataStructure": comps}]},
+            "data": data, "kwargs": {"return_only_persistent": False}, "env": {}, "output_folder": False, "meta": {"timeseries": ttype}}
+
+
 def _make_op(src):
+    if src[0] == "tseries":
+        o = timeseries_workload(random.Random(src[1]))
+        o["sid"] = "tseries:%d" % src[1]
+        return o
     if src[0] == "sample":
         o = sampling_workload(random.Random(src[1]))
         o["sid"] = "sample:%d" % src[1]
@@ -236,7 +281,10 @@ def run(ctx):
     items = [("gen", rng.randrange(1 << 30)) for _ in range(n_gen)]
     items += [("corpus", e) for e in rng.sample(cps, min(n_corpus, len(cps)))]
     rng.shuffle(items)
-    items = [("sample", rng.randrange(1 << 30)) for _ in range(6 if quick else 200)] + items
+    ts = [("tseries", rng.randrange(1 << 30)) for _ in range(60 if quick else 2500)]
+    items = [("sample", rng.randrange(1 << 30)) for _ in range(6 if quick else 200)] + ts[:16] + items
+    for i, x in enumerate(ts[16:]):
+        items.insert(min(len(items), 24 + i * 5), x)
     size = 8
     tasks = [{"items": items[i:i + size], "quick": quick, "seed": ctx.seed} for i in range(0, len(items), size)]
     done = ctx.map("task_batch", tasks, budget_s=ctx.budget_s * 0.85, min_tasks=24)
